@@ -150,6 +150,12 @@ whatever kind of answer (positive, NXDOMAIN, NODATA, SERVFAIL) it is. -/
 def replaceIfCurrent (samePartition : Bool) (cut : Deadline) (cutKey : Nat) : Option (Deadline × Nat) :=
   if samePartition then some (cut, cutKey) else none
 
+/-- what every write entry point of the answer cache (`SetFromResponseWithKey`,
+`SetFromResponseWithCut`, `SetFromResponseScoped`, the prefetch worker's write-back)
+stores as `cutUntil` / `cutKey`: the delegation cut it was handed, verbatim — an ECS
+TTL cap, the kind of answer or the client that claimed a refresh never replace it. -/
+def storeCut (cut : Deadline) (cutKey : Nat) : Deadline × Nat := (cut, cutKey)
+
 /-- `denialProofExpiry` (and the same bounds in `nxDomainCutCache.record`): how long the
 cache may SYNTHESIZE answers from a validated denial (RFC 8198 proof index, RFC 8020
 subtree cut). `maxTTL` is the configured ceiling (non-positive or above `hardMax` ↦
